@@ -136,7 +136,11 @@ func c16Workload(g *rand.Rand, port int, dur time.Duration) int {
 	xwatch := func(c *Conn, r *rand.Rand) [][]string {
 		return [][]string{{"SELECT", "1"}, {"WATCH", "ka", "kl"}, {"SELECT", "0"}, {"MULTI"}, {"INCR", "cnt"}, {"EXEC"}, {"SELECT", "2"}, {"WATCH", "ka"}, {"SELECT", "1"}, {"CLIENT", "LIST"}, {"UNWATCH"}}
 	}
-	fns := []func(c *Conn, r *rand.Rand) [][]string{data, data, data, intro, intro, sel, tx, tx, blocker, blocker, feeder, flusher, selmany, xwatch, sel}
+	// blocking commands in other databases (state shared by the wait tables of all databases)
+	blocker2 := func(c *Conn, r *rand.Rand) [][]string {
+		return [][]string{{"SELECT", fmt.Sprint(1 + r.Intn(3))}, {"BLPOP", "kl", "0.005"}, {"BRPOP", "bq", "kl", "0.005"}, {"RPUSH", "bq", "x"}}
+	}
+	fns := []func(c *Conn, r *rand.Rand) [][]string{data, data, data, intro, intro, sel, tx, tx, blocker, blocker, feeder, flusher, selmany, xwatch, sel, blocker2, blocker2}
 	for i, f := range fns {
 		wg.Add(1)
 		go worker(i, f, i%3 == 0)
@@ -222,7 +226,7 @@ func runC16(cfg runCfg, res *Result) error {
 		sites = append(sites, s)
 	}
 	sort.Strings(sites)
-	res.Samples = append(res.Samples, fmt.Sprintf("15 concurrent connections for %v: data commands x introspection x SELECT (16 databases)/FLUSH x MULTI/EXEC (also with keys watched in another database) x blocking commands x reconnects, saver pass every 7 ms, a second emulator started and closed", dur))
+	res.Samples = append(res.Samples, fmt.Sprintf("17 concurrent connections for %v: data commands x introspection x SELECT (16 databases)/FLUSH x MULTI/EXEC (also with keys watched in another database) x blocking commands (in four databases) x reconnects, saver pass every 7 ms, a second emulator started and closed", dur))
 	for _, s := range sites {
 		m := &Mismatch{Index: -1, Op: "data race", Why: "the race detector reports unsynchronised accesses at " + s}
 		known := false
